@@ -18,7 +18,9 @@
 
    Not modelled, stated where it matters: double rounding/overflow in strtod
    (numbers are exact rationals), quotes/backslashes inside variable values
-   (Str_Words would group them), "$" inside patterns. *)
+   (Str_Words would group them).  "$" inside the pattern of :M / :N: only the
+   nested reference ${NAME} (expanded before matching, see [expand_pat]); every
+   other use of "$" there ($$, $(..), ${NAME:mod}, a lone $) is outside. *)
 From PV Require Import Lib.Bytes.
 Open Scope N_scope.
 
@@ -124,17 +126,77 @@ Fixpoint join_sp (ws : list str) : str :=
 (* ------------------------------------------------------------------ *)
 (* modifiers and ${V:mods}                                             *)
 
+(* [pat] of ModM / ModN is the pattern as written: literal bytes and nested
+   references ${NAME}; see [expand_pat] *)
 Inductive modifier :=
 | ModM (pat : str) | ModN (pat : str) | ModTl | ModU (dflt : str) | ModOther (text : str).
+
+Definition env := str -> option str.
+
+Definition is_name_char (c : N) : bool := is_alnum c || (c =? 95) || (c =? 46).
+
+(* var.c ParseModifier_Match / ApplyModifier_Match: a pattern that contains '$'
+   goes through Var_Subst before Str_Match sees it.  The pattern as the parser
+   hands it over is a sequence of literal bytes and nested references; the only
+   nested form in the fragment is ${NAME}.  VarSubstExpr: an undefined nested
+   variable yields nothing (neither VARE_WANTRES of empty() nor VARE_UNDEFERR of
+   a bare expression keeps the reference or stops the evaluation).  The value is
+   spliced in as it is, so glob characters in it act as glob characters. *)
+Inductive ppart := PPByte (c : N) | PPRef (v : str).
+
+Fixpoint parse_pat (fuel : nat) (p : str) : option (list ppart) :=
+  match fuel with
+  | O => None
+  | S f =>
+    match p with
+    | [] => Some []
+    | c :: r =>
+      if c =? 36 then
+        match r with
+        | b :: r1 =>
+          if b =? 123 then
+            let (name, r2) := span is_name_char r1 in
+            match name, r2 with
+            | _ :: _, d :: r3 =>
+              if d =? 125 then option_map (cons (PPRef name)) (parse_pat f r3) else None
+            | _, _ => None
+            end
+          else None
+        | [] => None
+        end
+      else option_map (cons (PPByte c)) (parse_pat f r)
+    end
+  end.
+
+Definition nested_value (e : env) (v : str) : str := match e v with Some s => s | None => [] end.
+
+Fixpoint expand_parts (e : env) (ps : list ppart) : str :=
+  match ps with
+  | [] => []
+  | PPByte c :: r => c :: expand_parts e r
+  | PPRef v :: r => nested_value e v ++ expand_parts e r
+  end.
+
+(* the pattern Str_Match gets; None = a use of '$' outside the fragment *)
+Definition expand_pat (e : env) (p : str) : option str :=
+  option_map (expand_parts e) (parse_pat (S (length p)) p).
 
 (* var.c: DEF_REGULAR, DEF_UNDEF, DEF_DEFINED *)
 Inductive defstate := DRegular | DUndef | DDefined.
 
-Definition apply_mod (m : modifier) (st : defstate * str) : option (defstate * str) :=
+Definition apply_mod (e : env) (m : modifier) (st : defstate * str) : option (defstate * str) :=
   let (d, s) := st in
   match m with
-  | ModM pat => Some (d, join_sp (filter (fun w => str_match w pat) (words s)))
-  | ModN pat => Some (d, join_sp (filter (fun w => negb (str_match w pat)) (words s)))
+  | ModM pat =>
+    match expand_pat e pat with
+    | Some q => Some (d, join_sp (filter (fun w => str_match w q) (words s)))
+    | None => None
+    end
+  | ModN pat =>
+    match expand_pat e pat with
+    | Some q => Some (d, join_sp (filter (fun w => negb (str_match w q)) (words s)))
+    | None => None
+    end
   | ModTl => Some (d, lower s)
   | ModU dflt =>
     (* ApplyModifier_Defined: the default is used unless the variable is
@@ -146,18 +208,16 @@ Definition apply_mod (m : modifier) (st : defstate * str) : option (defstate * s
   | ModOther _ => None
   end.
 
-Fixpoint apply_mods (ms : list modifier) (st : defstate * str) : option (defstate * str) :=
+Fixpoint apply_mods (e : env) (ms : list modifier) (st : defstate * str) : option (defstate * str) :=
   match ms with
   | [] => Some st
-  | m :: r => match apply_mod m st with Some st' => apply_mods r st' | None => None end
+  | m :: r => match apply_mod e m st with Some st' => apply_mods e r st' | None => None end
   end.
-
-Definition env := str -> option str.
 
 Definition eval_expr (e : env) (v : str) (ms : list modifier) : option (defstate * str) :=
   match e v with
-  | Some s => apply_mods ms (DRegular, s)
-  | None => apply_mods ms (DUndef, [])
+  | Some s => apply_mods e ms (DRegular, s)
+  | None => apply_mods e ms (DUndef, [])
   end.
 
 (* ------------------------------------------------------------------ *)
@@ -446,11 +506,44 @@ Definition classify_mod (m : str) : modifier :=
   | _ => ModOther m
   end.
 
-Definition is_name_char (c : N) : bool := is_alnum c || (c =? 95) || (c =? 46).
 (* bytes that end or complicate a modifier: $ \ ( ) { } double-quote and the closer *)
 Definition plain_mod_char (close c : N) : bool :=
   negb ((c =? 58) || (c =? close) || (c =? 36) || (c =? 92) || (c =? 40) || (c =? 41)
         || (c =? 123) || (c =? 125) || (c =? 34)).
+
+(* one modifier: plain bytes and nested references ${NAME}, which are copied as
+   they are (the braces of a nested reference do not end the modifier) *)
+Fixpoint scan_seg (fuel : nat) (close : N) (s : str) : str * str :=
+  match fuel with
+  | O => ([], s)
+  | S f =>
+    match s with
+    | c :: r =>
+      if plain_mod_char close c then let (seg, r') := scan_seg f close r in (c :: seg, r')
+      else if c =? 36 then
+        match r with
+        | b :: r1 =>
+          if b =? 123 then
+            let (name, r2) := span is_name_char r1 in
+            match name, r2 with
+            | _ :: _, d :: r3 =>
+              if d =? 125 then
+                let (seg, r') := scan_seg f close r3 in (36 :: 123 :: name ++ 125 :: seg, r')
+              else ([], s)
+            | _, _ => ([], s)
+            end
+          else ([], s)
+        | [] => ([], s)
+        end
+      else ([], s)
+    | [] => ([], s)
+    end
+  end.
+
+(* nested references are in the fragment only inside the pattern of :M and :N *)
+Definition seg_ok (seg : str) : bool :=
+  negb (existsb (N.eqb 36) seg)
+  || match seg with c :: _ => (c =? 77) || (c =? 78) | [] => false end.
 
 (* after the name: (":" segment)* close *)
 Fixpoint parse_mods (fuel : nat) (close : N) (s : str) : option (list modifier * str) :=
@@ -461,7 +554,8 @@ Fixpoint parse_mods (fuel : nat) (close : N) (s : str) : option (list modifier *
     | c :: r =>
       if c =? close then Some ([], r)
       else if c =? 58 then
-        let (seg, r1) := span (plain_mod_char close) r in
+        let (seg, r1) := scan_seg (S (length r)) close r in
+        if negb (seg_ok seg) then None else
         match parse_mods f close r1 with
         | Some (ms, r2) => Some (classify_mod seg :: ms, r2)
         | None => None
@@ -688,5 +782,20 @@ Definition env1 (name : str) (v : option str) : env :=
 Definition eval_text (s name : str) (v : option str) : option tri :=
   match parse_cond s with
   | Some c => eval (env1 name v) c
+  | None => None
+  end.
+
+(* ... and when several variables are bound (the subject and the variables that
+   patterns refer to); the first binding of a name counts, every name that is
+   not listed is undefined *)
+Fixpoint env_of (binds : list (str * option str)) : env :=
+  fun n => match binds with
+           | [] => None
+           | (k, v) :: r => if str_eqb n k then v else env_of r n
+           end.
+
+Definition eval_text_env (s : str) (binds : list (str * option str)) : option tri :=
+  match parse_cond s with
+  | Some c => eval (env_of binds) c
   | None => None
   end.
